@@ -209,10 +209,14 @@ func (t *artTree) Get(key []byte) kv.ValueStruct {
 	if leaf == nil {
 		return kv.ValueStruct{}
 	}
-	if !kv.SameKey(key, leaf.leafKey(t.arena)) {
+	found := leaf.leafKey(t.arena)
+	if !kv.SameKey(key, found) {
 		return kv.ValueStruct{}
 	}
-	return leaf.loadValue(t.arena)
+	vs := leaf.loadValue(t.arena)
+	// The version of the entry that was found, not of the key that was asked for.
+	vs.Version = kv.ParseTs(found)
+	return vs
 }
 
 func (t *artTree) Set(key []byte, value kv.ValueStruct) {
